@@ -150,9 +150,9 @@ func pick(r *emit.Rng, good, bad []string, badNum, badDen int) string {
 
 // ---- stream desc ----
 var (
-	goodNames  = []string{"x", "y", "x_total", "req", "p_x", "a_x", "métrica", "ns_sub_x"}
+	goodNames  = []string{"x", "y", "x_total", "req", "p_x", "a_x", "métrica", "ns_sub_x", "_inflight", "_x", "__y"}
 	badNames   = []string{"", "\xff", "a\xc3", "\xa9x"}
-	goodPrefix = []string{"", "p_", "a_", "ns_sub_", "é", "p_a_", ""}
+	goodPrefix = []string{"", "p_", "a_", "ns_sub_", "é", "p_a_", "", "app_", "_b_", "_"}
 	badPrefix  = []string{"\xff", "\xc3", "\xa9", "\xf0\x9f"}
 	goodLn     = []string{"a", "b", "c", "aa", "zone", "le", "ü", "_x"}
 	badLn      = []string{"", "__r", "l\xff", "__name__"}
@@ -459,8 +459,8 @@ func writeStream(c *cli.Ctx, r *emit.Rng, n int) error {
 
 // ---- stream reg ----
 var (
-	regNames  = []string{"x", "y", "p_x", "p_y", "a_p_x"}
-	regPrefix = []string{"p_", "a_", "a_p_", "", "p_"}
+	regNames  = []string{"x", "y", "p_x", "p_y", "a_p_x", "_x", "p__x"}
+	regPrefix = []string{"p_", "a_", "a_p_", "", "p_", "_p_"}
 	regLn     = []string{"a", "b", "c", "z"}
 )
 
@@ -962,9 +962,22 @@ func emFams(fams []*dto.MetricFamily) string {
 var gatherAdd = []string{"wa", "zone", "aa", "0first", "zz", "bb", "env", "dc", "kk", "w2"}
 
 func genGatherCollector(r *emit.Rng, i int) (prometheus.Collector, string) {
-	name := []string{"x", "req_total", "lat", "métrica"}[r.Intn(4)]
+	name := []string{"x", "req_total", "lat", "métrica", "_inflight", "_x"}[r.Intn(6)]
 	cl := smallLabels(r, []string{"a", "b", "c"}, 2)
-	switch r.Intn(7) {
+	switch r.Intn(8) {
+	case 7:
+		// several members of one family that differ only in the value of a constant label
+		lc := &listCollector{}
+		for j, sh := range []string{"a", "b", "c", ""}[:2+r.Intn(3)] {
+			l := prometheus.Labels{"shard": sh}
+			for k, v := range cl {
+				l[k] = v
+			}
+			d := prometheus.NewDesc(name, "h", nil, l)
+			lc.descs = append(lc.descs, d)
+			lc.metrics = append(lc.metrics, prometheus.MustNewConstMetric(d, prometheus.GaugeValue, float64(j)))
+		}
+		return lc, "same-family-const-values"
 	case 0:
 		ctr := prometheus.NewCounter(prometheus.CounterOpts{Name: name, Help: "h", ConstLabels: cl})
 		ctr.Add(float64(r.Intn(50)))
@@ -1032,7 +1045,7 @@ func gatherStream(c *cli.Ctx, r *emit.Rng, n int) error {
 		used := map[string]bool{}
 		for j := range ls {
 			if r.Chance(2, 5) {
-				ls[j] = layer{isPrefix: true, prefix: []string{"p_", "ns_sub_", "", "é_"}[r.Intn(4)]}
+				ls[j] = layer{isPrefix: true, prefix: []string{"p_", "ns_sub_", "", "é_", "app_", "_b_"}[r.Intn(6)]}
 			} else {
 				m := prometheus.Labels{}
 				want := r.Intn(3)
@@ -1089,6 +1102,46 @@ func gatherStream(c *cli.Ctx, r *emit.Rng, n int) error {
 		}
 		f2, err := r0.Gather()
 		ok = ok && err == nil
+		// Desc() of every collected wrapped metric describes that very metric: wrapped name, the
+		// wrapper's labels, and constant labels with the values the metric writes
+		for _, wm := range collectAll(wrapCollector(col, ls)) {
+			out := &dto.Metric{}
+			if wm.Write(out) != nil {
+				continue
+			}
+			written := map[string]string{}
+			for _, lp := range out.Label {
+				written[lp.GetName()] = lp.GetValue()
+			}
+			dp := prometheus.VerifC13Project(wm.Desc())
+			if dp.Err != nil || len(dp.Const)+len(dp.Var) != len(out.Label) {
+				ok = false
+			}
+			for _, cp := range dp.Const {
+				if v, has := written[cp[0]]; !has || v != cp[1] {
+					ok = false
+				}
+			}
+			for k, v := range ls {
+				_ = k
+				for ln, lv := range v.labels {
+					found := false
+					for _, cp := range dp.Const {
+						if cp[0] == ln && cp[1] == lv {
+							found = true
+						}
+					}
+					ok = ok && found
+				}
+			}
+			famOK := false
+			for _, f := range f1 {
+				if f.GetName() == dp.FqName && f.GetHelp() == dp.Help {
+					famOK = true
+				}
+			}
+			ok = ok && famOK
+		}
 		var un int
 		if viaRegisterer {
 			un = safeUnregister(wrapRegisterer(r1, ls), col)
